@@ -180,6 +180,10 @@ Theorem C04_alloc_sbgp : forall hs hl body, bounded (alloc_sbgp hs hl body) 1 0 
 Proof. exact alloc_sbgp_bounded. Qed.
 Print Assumptions C04_alloc_sbgp.
 
+Theorem C04_alloc_subs : forall hs hl body, bounded (alloc_subs hs hl body) 6 786420 1 65536 (lenN body).
+Proof. exact alloc_subs_bounded. Qed.
+Print Assumptions C04_alloc_subs.
+
 Theorem C04_alloc_elst : forall hs hl body, bounded (alloc_elst hs hl body) 2 0 12 0 hs.
 Proof. exact alloc_elst_bounded. Qed.
 Print Assumptions C04_alloc_elst.
